@@ -36,8 +36,8 @@ func (e *Exec) globalObj(g *ssa.Global) *Object {
 	}
 	e.objs++
 	name := g.Pkg.Pkg.Name() + "." + g.Name()
-	o := &Object{ID: e.objs, Pre: true, Addr: e.C.Sym("ga_"+smt.Sanitize(name), smt.Int), Typ: derefType(g.Type()), Name: name, Glob: g}
-	e.Axioms = append(e.Axioms, e.C.IntLt(e.C.IntC(0), o.Addr))
+	o := &Object{ID: e.objs, Pre: true, Addr: e.C.Sym("ga_"+smt.Sanitize(name), refSort), Typ: derefType(g.Type()), Name: name, Glob: g}
+	e.Axioms = append(e.Axioms, e.C.BVSlt(e.C.BVC(uint64(0), 64), o.Addr))
 	e.globals[g] = o
 	return o
 }
@@ -186,7 +186,7 @@ func (e *Exec) step(st *State, ins ssa.Instruction) {
 	case *ssa.MakeInterface:
 		v := e.eval(st, x.X)
 		T := x.X.Type()
-		st.env[x] = &IfaceV{Typ: x.Type(), Alts: []IfaceAlt{{Cond: c.True(), Tag: c.IntC(int64(e.typeID(T))), Typ: T, Val: v}}}
+		st.env[x] = &IfaceV{Typ: x.Type(), Alts: []IfaceAlt{{Cond: c.True(), Tag: c.BVC(uint64(e.typeID(T)), 64), Typ: T, Val: v}}}
 	case *ssa.ChangeInterface:
 		st.env[x] = e.eval(st, x.X)
 	case *ssa.ChangeType:
@@ -213,7 +213,7 @@ func (e *Exec) step(st *State, ins ssa.Instruction) {
 	case *ssa.Lookup:
 		st.env[x] = e.lookup(st, x)
 	case *ssa.MakeMap:
-		st.env[x] = &MapV{ID: c.Fresh("map", smt.Int), Typ: x.Type().Underlying().(*types.Map)}
+		st.env[x] = &MapV{ID: c.Fresh("map", refSort), Typ: x.Type().Underlying().(*types.Map)}
 	case *ssa.MapUpdate:
 		e.refuse("map update not supported")
 	case *ssa.SliceToArrayPointer:
@@ -521,7 +521,7 @@ func (e *Exec) ifaceNil(v *IfaceV) *smt.Term {
 	c := e.C
 	r := c.False()
 	for _, al := range v.Alts {
-		r = c.Or(r, c.And(al.Cond, c.Eq(al.Tag, c.IntC(0))))
+		r = c.Or(r, c.And(al.Cond, c.Eq(al.Tag, c.BVC(uint64(0), 64))))
 	}
 	return r
 }
@@ -536,7 +536,7 @@ func (e *Exec) ifaceTag(v *IfaceV) *smt.Term {
 		}
 	}
 	if res == nil {
-		return e.C.IntC(0)
+		return e.C.BVC(uint64(0), 64)
 	}
 	return res
 }
@@ -550,15 +550,15 @@ func (e *Exec) ifaceIdent(v *IfaceV) *smt.Term {
 		var id *smt.Term
 		switch {
 		case al.Opaque != nil:
-			id = c.App("if_ident", smt.Int, al.Opaque)
+			id = c.App("if_ident", refSort, al.Opaque)
 		case al.Typ == nil:
-			id = c.IntC(0)
+			id = c.BVC(uint64(0), 64)
 		default:
 			switch pv := al.Val.(type) {
 			case *PtrV:
 				id = e.ptrAddr(pv)
 			default:
-				id = c.Fresh("ifident", smt.Int)
+				id = c.Fresh("ifident", refSort)
 			}
 		}
 		if res == nil {
@@ -568,7 +568,7 @@ func (e *Exec) ifaceIdent(v *IfaceV) *smt.Term {
 		}
 	}
 	if res == nil {
-		return c.IntC(0)
+		return c.BVC(uint64(0), 64)
 	}
 	return res
 }
@@ -639,10 +639,10 @@ func (e *Exec) valuesEqual(st *State, a, b Value) *smt.Term {
 			return c.Eq(x.ID, y.ID)
 		}
 		if x.Fn != nil && yn {
-			return c.Eq(c.IntC(-1), y.ID)
+			return c.Eq(c.BVC(^uint64(0), 64), y.ID)
 		}
 		if y.Fn != nil && xn {
-			return c.Eq(c.IntC(-1), x.ID)
+			return c.Eq(c.BVC(^uint64(0), 64), x.ID)
 		}
 		e.refuse("func == func")
 	case *StructV:
@@ -825,7 +825,7 @@ func (e *Exec) convert(st *State, x *ssa.Convert) Value {
 				st.mem[o] = &ArrV{Elem: el, N: -1, Read: func(i *smt.Term) Value {
 					return Scalar{T: c.App("str_at", smt.BV(8), s, i), Typ: el}
 				}}
-				e.Axioms = append(e.Axioms, c.BVSle(bv64(c, 0), ln), c.BVSle(ln, c.BVC(1<<48, 64)))
+				e.Axioms = append(e.Axioms, c.BVSle(bv64(c, 0), ln), c.BVSle(ln, c.BVC(maxLen, 64)))
 				return &SliceV{Elem: el, Len: ln, Cap: ln, Alts: []SliceAlt{{Cond: c.True(), Loc: &Loc{Obj: o}, Off: bv64(c, 0)}}}
 			}
 		}
@@ -882,9 +882,9 @@ func (e *Exec) typeAssert(st *State, x *ssa.TypeAssert) Value {
 				ac = c.BoolC(types.Implements(al.Typ, T.Underlying().(*types.Interface)))
 			case al.Opaque != nil:
 				if types.Identical(iv.Typ, T) || types.AssignableTo(iv.Typ, T) {
-					ac = c.Neq(al.Tag, c.IntC(0))
+					ac = c.Neq(al.Tag, c.BVC(uint64(0), 64))
 				} else {
-					ac = c.And(c.Neq(al.Tag, c.IntC(0)), c.App("implements_"+sortName(T), smt.Bool, al.Tag))
+					ac = c.And(c.Neq(al.Tag, c.BVC(uint64(0), 64)), c.App("implements_"+sortName(T), smt.Bool, al.Tag))
 				}
 			default:
 				ac = c.False()
@@ -901,7 +901,7 @@ func (e *Exec) typeAssert(st *State, x *ssa.TypeAssert) Value {
 		e.oblige(st, "assert-type", exprLabel(e, x, x.Pos()), okc, x.Pos())
 		return res
 	}
-	id := c.IntC(int64(e.typeID(T)))
+	id := c.BVC(uint64(e.typeID(T)), 64)
 	okc := c.False()
 	var val Value
 	for i := len(iv.Alts) - 1; i >= 0; i-- {
